@@ -82,23 +82,27 @@ def _box(tier):
                     yield {"cls": "Revolve", "n": n, "s": s, "c8": c8, "passes": 1}
 
 
+def check_witness(data, show=False):
+    w = data["witness"]
+    if data.get("kind") == "helper":
+        n, s, got, want = _helper((w["n"], w["s"]))
+        if show:
+            print("optimal_steps_binomial(%d,%d) = %r, closed form %d" % (n, s, got, want))
+        if got != want:
+            return [(("helper", "optimal_steps_binomial"), w, "optimal_steps_binomial(%d,%d)=%r, optimum %d" % (n, s, got, want), "helper")]
+        return []
+    out = _case(w)
+    if show:
+        print("replaying %s: steps=%s optimum=%s" % (C.describe(w), out.get("steps"), out.get("want")))
+    return [((C.variant(w), pred), w, detail, "config") for pred, detail in out["viol"]]
+
+
 def run(prop, args):
     rep = R.Report(prop, args, RULE)
     if args.replay:
-        data = R.load_replay(args.replay)
-        w = data["witness"]
-        if data.get("kind") == "helper":
-            n, s, got, want = _helper((w["n"], w["s"]))
-            rep.evaluations = 1
-            print("optimal_steps_binomial(%d,%d) = %r, closed form %d" % (n, s, got, want))
-            if got != want:
-                rep.add_violation(("helper", "optimal_steps_binomial"), w, "optimal_steps_binomial(%d,%d)=%r, optimum %d" % (n, s, got, want), kind="helper")
-            return rep.finish()
-        out = _case(w)
         rep.evaluations = 1
-        print("replaying %s: steps=%s optimum=%s" % (C.describe(w), out.get("steps"), out.get("want")))
-        for pred, detail in out["viol"]:
-            rep.add_violation((C.variant(w), pred), w, detail)
+        for b, w, d, k in check_witness(R.load_replay(args.replay), show=True):
+            rep.add_violation(b, w, d, kind=k)
         return rep.finish()
     tier = args.tier
     # (1) oracle self-validation on the full small range
@@ -154,6 +158,7 @@ def run(prop, args):
             rep.add_violation(("helper", "optimal_steps_binomial"), {"n": n, "s": s},
                               "optimal_steps_binomial(%d,%d)=%r, optimum %d" % (n, s, got, want), kind="helper")
     rep.extra["helper_calls"] = len(hres)
+    R.run_regress(rep, check_witness)
     rep.sample({"helper": "optimal_steps_binomial(30,3)", "closed_form": O.gw_total(30, 3)})
     rep.assumptions = ["true optimum established by exhaustive search only for n<=%d; beyond that by DP/closed form validated against the search on that range" % NS,
                        "stream cost model of DESIGN 2.4: forward steps = sum of (min(n1,n)-n0) over Forward actions"]
